@@ -648,8 +648,7 @@ def reference(spec, variant=None, vals=None):
         else:
             axes = [(d["label"], d["global_axis"]) for d in ds]
             aligned, mapping, ties = reference_alignment(axes, float(spec["tolerance"]), spec["method"])
-            if len(ds) == 1:
-                aligned = [float(v) for v in ds[0]["global_axis"]]  # one dataset: the aligned axis is its own axis, in its order
+            # (the aligned axis is strictly increasing also for a single dataset / identical unsorted axes - repaired in /repo)
             ginfo["aligned"] = aligned
             ginfo["mapping"] = mapping
             ginfo["ties"] = ties
